@@ -348,7 +348,11 @@ structure OpCfg where
   cls : String                                   -- operation class name = category
   params : Params := {}                          -- registered via `recording_params` (default otherwise)
   extractor : Option Extracted := none           -- metadata extractor and what it yields for this run
-  saveFails : Bool := false                      -- the cassette raises on save (storage fault / unserialisable value)
+  saveFails : Bool := false                      -- the cassette raises on save: storage fault
+  unser : Data → Bool := fun _ => false          -- … or the recording holds a value the serializer rejects (`encode` raises)
+
+/-- does `save_recording` raise for this recording?  (the failure is swallowed by the recording scope, l.98-104) -/
+def OpCfg.saveFailsOn (cfg : OpCfg) (d : Data) : Bool := cfg.saveFails || cfg.unser d
 
 def tick (s : St) : St × Nat :=
   match s.clock with
@@ -412,7 +416,7 @@ def postMeta (ao : AliasOracle) (cfg : OpCfg) (data : Data) (excFlag : Option Bo
 
 def saveRecording (s : St) (cfg : OpCfg) (r : Recording) : St :=
   let s1 := addLog s (.save r.id)
-  if cfg.saveFails then s1 else { s1 with store := r :: s1.store }
+  if cfg.saveFailsOn r.data then s1 else { s1 with store := r :: s1.store }
 
 /-- the `finally` block of `start_recording` -/
 def finishRecording (ao : AliasOracle) (cfg : OpCfg) (s : St) (excFlag : Option Bool) (tStart : Nat) : St :=
